@@ -120,6 +120,24 @@ def main(tier, replay):
                          "what": "model and implementation disagree; no property-oracle failure among %d oracle evaluations" % stats.get("props", 0)}, has_input=False)
     if proof_broken:
         v.violation({"kind": "proof", "theorem_or_file": gate["problems"], "what": "Coq obligations no longer check"}, has_input=False)
+    if tier == "thorough" and okg and okm:
+        # supporting evidence: the concurrent classes (sf, bg, st) once more under the race detector;
+        # the monitors are the proved invariants, a data race in pd.go's paths fails the run
+        okr, exer = vlib.go_build("oracle_race", pkg="./internal/zz_verif/oracle", roots=ROOTS, race=True)
+        if not okr:
+            cov["race_run"] = "race build unavailable: " + exer[-200:]
+        else:
+            envr = dict(env); envr["VERIF_C13_ONLY"] = "conc"; envr["VERIF_TIER"] = "quick"; envr["GORACE"] = "halt_on_error=0 exitcode=66"
+            rcr, outr = vlib.sh([exer], env=envr, timeout=900)
+            races = outr.count("WARNING: DATA RACE")
+            lines_r = "\n".join(l for l in outr.splitlines() if l.startswith(("sf\t", "P\t", "bg\t", "st\t")))
+            rc2, cmp2 = vlib.sh([modelrun], inp=lines_r + "\n", timeout=600)
+            st2, _, mism2, pf2, _ = parse_cmp(cmp2)
+            cov["race_run"] = {"data_races": races, "exit": rcr, "lines": st2.get("lines", 0), "oracle_failures": len(pf2), "model_mismatches": len(mism2)}
+            if races or rcr != 0 or pf2 or mism2:
+                i0 = outr.find("WARNING: DATA RACE")
+                v.violation({"kind": "race-run", "correspondence": "concurrent classes under go build -race",
+                             "what": "data race / monitor failure in the -race run", "detail": (outr[i0:i0 + 1500] if i0 >= 0 else str((pf2 + mism2)[:2]))}, has_input=False)
     if tier == "thorough" and not proof_broken:
         okc, outc = vlib.coqchk(["Verif.Oracle.Props"])
         cov["coqchk"] = "ok" if okc else outc[-300:]
